@@ -114,8 +114,9 @@ class DecisionLogger(DecisionLogSink):
             if self.max_env_bytes is not None:
                 try:
                     serialized = json.dumps(redacted_env, ensure_ascii=False)
-                    if len(serialized) > self.max_env_bytes:
-                        safe["env"] = {"_truncated": True, "size_bytes": len(serialized)}
+                    size = len(serialized.encode("utf-8", "surrogatepass"))
+                    if size > self.max_env_bytes:
+                        safe["env"] = {"_truncated": True, "size_bytes": size}
                     else:
                         safe["env"] = redacted_env
                 except Exception:
